@@ -8,12 +8,14 @@ git -C /repo worktree add -q "$WT" HEAD || exit 3
 OUT=/verif/seeded/$NAME; mkdir -p "$OUT"
 cp "$SRC/patch.diff" "$SRC/demo.py" "$OUT/"
 cd "$WT"
-D0=$(PYTHONPATH=$WT timeout 600 /venv/bin/python "$OUT/demo.py" >/dev/null 2>&1; echo $?)
+# demo and tests run in a private network namespace (fixed test ports collide with anything else running on the machine)
+NS() { unshare -n sh -c "ip link set lo up; $1"; }
+D0=$(NS "PYTHONPATH=$WT timeout 600 /venv/bin/python $OUT/demo.py" >/dev/null 2>&1; echo $?)
 if ! git apply "$OUT/patch.diff"; then echo "PATCH DOES NOT APPLY"; git -C /repo worktree remove --force "$WT"; exit 4; fi
-D1=$(PYTHONPATH=$WT timeout 600 /venv/bin/python "$OUT/demo.py" >/dev/null 2>&1; echo $?)
+D1=$(NS "PYTHONPATH=$WT timeout 600 /venv/bin/python $OUT/demo.py" >/dev/null 2>&1; echo $?)
 T=""
 if [ $# -gt 0 ]; then
-  T=$(PYTHONPATH=$WT timeout 3000 /venv/bin/python -m pytest -q -p no:cacheprovider "$@" 2>&1 | tail -1)
+  T=$(NS "PYTHONPATH=$WT timeout 3000 /venv/bin/python -m pytest -q -p no:cacheprovider $* 2>&1" | tail -1)
 fi
 cd /verif
 RES=""
